@@ -12,9 +12,16 @@ Definition S_symm_dist : Prop :=
   forall g s v, wf_graph g = true -> symmetric_graph g -> s < length g -> v < length g ->
   dget (dist_matrix g) s v = dget (dist_matrix g) v s.
 
-(** the part of the invariant that survives in the symmetric variant (the backward arrays
-    alias the forward ones): everything except "a radial vertex whose bounds have met is
-    accounted for in rU", which [backwards_step_sum_sweep] breaks (C16_symm_radius_refuted) *)
+(** in a symmetric graph backward and forward eccentricities coincide *)
+Definition S_symm_ecc : Prop :=
+  forall g v, wf_graph g = true -> 0 < length g -> symmetric_graph g -> v < length g ->
+  EB g v = EF g v.
+
+(** the invariant of the symmetric variant (the backward arrays alias the forward ones and
+    are not used): the full invariant of the directed variant restricted to the forward
+    arrays, INCLUDING "a radial vertex whose bounds have met is accounted for in rU" (which
+    the pre-repair rules broke: C16_symm_radius_refuted).  The initial value of rU is
+    n/2 + 1. *)
 Record inv_sym (g : graph) (radial : list bool) (x : st) : Prop := mkInvSym {
   s_len : length (lF x) = length g /\ length (uF x) = length g;
   s_F : forall v, v < length g -> nth v (lF x) 0 <= EF g v <= nth v (uF x) 0;
@@ -22,33 +29,69 @@ Record inv_sym (g : graph) (radial : list bool) (x : st) : Prop := mkInvSym {
   s_dv : dv x < length g /\ (dL x = 0 \/ EF g (dv x) = dL x);
   s_lFd : forall v, v < length g -> nth v (lF x) 0 <= dL x;
   s_rU : forall r, radius_from (eccs_f (dist_matrix g)) radial = Some r -> r <= rU x;
-  s_rv : rU x = length g / 2 \/
-         (rv x < length g /\ nth (rv x) radial false = true /\ EF g (rv x) = rU x) }.
+  s_rv : rU x = length g / 2 + 1 \/
+         (rv x < length g /\ nth (rv x) radial false = true /\ EF g (rv x) = rU x);
+  s_R : forall v, v < length g -> nth v radial false = true ->
+        nth v (lF x) 0 = nth v (uF x) 0 -> rU x <= nth v (lF x) 0 }.
 
-Definition pivot_lt (g : graph) (o : op) : Prop :=
-  match o with OFwd s => s < length g | OBwd s _ => s < length g end.
+(** legal operations of the symmetric variant: the pivot of a visit is a node and the
+    visiting order contains every node the visit reaches (BOTH kinds of visit update the
+    radius while visiting); for the SCC step, the pivot assigned to a node is a node of its
+    connected component, and the iteration order lists exactly the nodes *)
+Definition legal_op_sym (g : graph) (o : op) : Prop :=
+  match o with
+  | OFwd s order | OBwd s order => s < length g /\
+      forall v, v < length g -> dget (dist_matrix g) s v <> None -> In v order
+  | OAll piv order =>
+      (forall v, v < length g ->
+         nth v piv 0 < length g /\ dget (dist_matrix g) (nth v piv 0) v <> None) /\
+      (forall v, In v order <-> v < length g)
+  end.
 
+(** every operation, the SCC step included, preserves the invariant: for ANY pivots and any
+    visiting orders *)
 Definition S_symm_step_invariant : Prop :=
-  forall g radial o x, wf_graph g = true -> 0 < length g -> symmetric_graph g -> pivot_lt g o ->
+  forall g radial o x, wf_graph g = true -> 0 < length g -> symmetric_graph g -> legal_op_sym g o ->
   inv_sym g radial x -> inv_sym g radial (step true (dist_matrix g) radial o x).
 
-(** the initial state satisfies it provided the radius is at most n/2 (true of the default
-    radial set of a symmetric graph, the vertices of a largest connected component; not
-    proved here) *)
+(** the bound d(pivot, v) + ecc(pivot) used by the SCC step is an upper bound of ecc(v)
+    (triangle inequality + symmetry) *)
+Definition S_symm_pivot_bound : Prop :=
+  forall g piv v, wf_graph g = true -> 0 < length g -> symmetric_graph g -> v < length g ->
+  nth v piv 0 < length g -> dget (dist_matrix g) (nth v piv 0) v <> None ->
+  EF g v <= pivot_value (dist_matrix g) piv v.
+
+(** the initial state satisfies the invariant provided the radius is at most n/2 + 1 *)
 Definition S_symm_run_invariant : Prop :=
   forall g radial ops, wf_graph g = true -> 0 < length g -> symmetric_graph g ->
-  Forall (pivot_lt g) ops ->
-  (forall r, radius_from (eccs_f (dist_matrix g)) radial = Some r -> r <= length g / 2) ->
+  Forall (legal_op_sym g) ops ->
+  (forall r, radius_from (eccs_f (dist_matrix g)) radial = Some r -> r <= length g / 2 + 1) ->
   inv_sym g radial (run_ops true (dist_matrix g) radial ops (init_st (length g) true)).
 
-(** at the exit the eccentricities and the diameter (with its vertex) are exact, and the
-    radius is never under-estimated *)
-Definition check_values_symm (dm : list (list (option nat))) (o : ess_out) (l : level) : bool :=
-  (negb (wants_eccf l) || check_eccf dm o) &&
-  (negb (wants_diam l) || (check_diam dm o && check_dv dm o)).
-
+(** at the exit EVERYTHING the level reports is exact: eccentricities, diameter and its
+    vertex, radius and a radial vertex attaining it.  The hypothesis "radius <= n/2" is what
+    the initial value n/2 + 1 of the bound presupposes; it holds for the radial set
+    [run_symm] always uses, the vertices of a largest connected component (a connected graph
+    on m nodes has radius <= m/2) -- that graph-theoretic fact is NOT proved here. *)
 Definition S_symm_exit_exact : Prop :=
-  forall g radial l x, wf_graph g = true -> 0 < length g -> inv_sym g radial x ->
+  forall g radial l x, wf_graph g = true -> 0 < length g -> symmetric_graph g ->
+  inv_sym g radial x ->
+  (forall r, radius_from (eccs_f (dist_matrix g)) radial = Some r -> r <= length g / 2) ->
   missing_nodes l (find_missing true (length g) radial x) = 0 ->
-  check_values_symm (dist_matrix g) (output true (length g) radial x) l = true /\
-  (forall r, radius_from (eccs_f (dist_matrix g)) radial = Some r -> r <= rU x).
+  check_ess_dm (dist_matrix g) radial (output true (length g) radial x) l = true.
+
+(** full property for the symmetric machine: any legal sequence of visits and SCC steps that
+    reaches the exit condition yields an output accepted by the complete checker *)
+Definition S_symm_machine_exact : Prop :=
+  forall g radial ops l, wf_graph g = true -> 0 < length g -> symmetric_graph g ->
+  Forall (legal_op_sym g) ops ->
+  (forall r, radius_from (eccs_f (dist_matrix g)) radial = Some r -> r <= length g / 2) ->
+  fst (replay true g radial ops l) = 0 ->
+  check_ess g radial (snd (replay true g radial ops l)) l = true.
+
+(** the pivots the model of [find_best_pivot] chooses are legal for the SCC step (whatever
+    the tie-break data) *)
+Definition S_best_pivots_legal : Prop :=
+  forall g use_tot tot x v, wf_graph g = true -> symmetric_graph g -> v < length g ->
+  let p := nth v (best_pivots true use_tot (dist_matrix g) (length g) tot x) 0 in
+  p < length g /\ dget (dist_matrix g) p v <> None.
